@@ -20,6 +20,7 @@ type lenContract struct {
 }
 
 type boundsRun struct {
+	riMemo  map[*ssa.Function]bool
 	lcMemo  map[*ssa.Function]*lenContract
 	lcBusy  map[*ssa.Function]bool
 	w       *World
@@ -256,7 +257,7 @@ func (br *boundsRun) lenMethodIsLen(fn *ssa.Function) bool {
 	return false
 }
 
-var tempName = regexp.MustCompile(`\bt[0-9]+\b`)
+var tempName = regexp.MustCompile(`\bt[0-9]+\b|0x[0-9a-f]+`)
 
 // siteText renders the source expression of a site for stable keys.
 func (br *boundsRun) siteText(s boundSite) string {
